@@ -1136,7 +1136,7 @@ fn decoy_tc(r: &mut Rng, q: &Qd, buf: usize, tc4: u64) -> String {
     let tc = r.chance(tc4, 4);
     let fl: u16 = if r.chance(1, 2) { resp_flags(r, tc) } else if tc { 0x8380 } else { 0x8180 };
     let right = msg_tail(fl, 1, 0, &q.question(false), &[]);
-    match r.below(13) {
+    match r.below(14) {
         0 => {
             // too short
             let n = r.below(12) as usize;
@@ -1219,6 +1219,30 @@ fn decoy_tc(r: &mut Rng, q: &Qd, buf: usize, tc4: u64) -> String {
         10 => {
             // a query with another ID
             format!("JJJJ{}", hx(&msg_tail(0x0100, 1, 0, &q.question(false), &[])))
+        }
+        12 if q.qname.trim_end_matches('.').contains('.') => {
+            // right ID, type and class; the wire name has ONE label that contains a literal dot and
+            // spells two adjacent labels of the asked name (`www.example` + `com`): joined with dots
+            // its text reads like the asked name, but it is another name (and not a valid one)
+            let labels: Vec<&str> = q.qname.trim_end_matches('.').split('.').collect();
+            let k = r.below(labels.len() as u64 - 1) as usize;
+            let mut qb: Vec<u8> = Vec::new();
+            let mut i = 0;
+            while i < labels.len() {
+                let l = if i == k {
+                    i += 1;
+                    format!("{}.{}", labels[k], labels[k + 1])
+                } else {
+                    labels[i].to_string()
+                };
+                i += 1;
+                qb.push(l.len() as u8);
+                qb.extend_from_slice(l.as_bytes());
+            }
+            qb.push(0);
+            qb.extend_from_slice(&q.qtype.to_be_bytes());
+            qb.extend_from_slice(&q.qclass.to_be_bytes());
+            format!("IIII{}", hx(&msg_tail(fl, 1, 0, &qb, &[])))
         }
         11 => {
             // right ID, question name is a pointer to itself / forward
@@ -1509,7 +1533,14 @@ fn gen_c13(r: &mut Rng, index: u64) -> String {
             buf,
             drop: None,
             udp: vec![e0],
-            tcp: vec![vec![tcp_framed("IIII", &tcp_tail)]],
+            tcp: vec![if r.chance(1, 2) {
+                vec![tcp_framed("IIII", &tcp_tail)]
+            } else {
+                // the same answer in two segments with a pause in between (the cut lies behind the ID)
+                let full = tcp_framed("IIII", &tcp_tail);
+                let cut = 2 * r.range(4, full.len() as u64 / 2 - 1) as usize;
+                vec![full[..cut].to_string(), "p30".to_string(), full[cut..].to_string()]
+            }],
         }],
     )
 }
@@ -1829,7 +1860,7 @@ fn gen_c16(r: &mut Rng, index: u64) -> String {
     // duplicate, 7 drop, 8 tcp response cut short (the server closes inside the announced body),
     // 9 two typed queries for one name: a full answer with three records, then a complete frame /
     // datagram whose header still claims three answers but which carries one (what lies behind it in
-    // the client's buffer is the first answer)
+    // the client's buffer is the first answer), 10 the same over UDP with a runt datagram
     let mut kinds: Vec<u8> = Vec::new();
     let mut silent = 0;
     for i in 0..nq {
@@ -1837,7 +1868,10 @@ fn gen_c16(r: &mut Rng, index: u64) -> String {
             kinds.push(r.below(2) as u8);
             break;
         }
-        let mut k = r.below(10) as u8;
+        let mut k = r.below(11) as u8;
+        if k == 10 && strat == "tcp" {
+            k = 1;
+        }
         if k == 8 && strat != "tcp" {
             k = 0;
         }
@@ -1999,6 +2033,33 @@ fn gen_c16(r: &mut Rng, index: u64) -> String {
                         (0..n).map(|_| dup.clone()).collect(),
                     );
                 }
+            }
+            10 => {
+                // two typed queries for one name over UDP: the first is answered; the reply to the
+                // second starts with a runt that carries the current ID but ends inside (or in front
+                // of) its question — what follows it in the client's buffer is the first answer
+                api = "rrset";
+                q.qtype = 1;
+                q.qclass = 1;
+                let first = a_records(r, 2);
+                qs.push(GQ {
+                    api,
+                    q: q.clone(),
+                    buf,
+                    drop: None,
+                    udp: vec![vec![format!("IIII{}", hx(&msg_tail(0x8180, 1, 2, &q.question(false), &first)))]],
+                    tcp: vec![],
+                });
+                let whole = msg_tail(0x8180, 1, 1, &q.question(false), &a_records(r, 1));
+                let qlen = q.question(false).len();
+                let keep = match r.below(3) {
+                    0 => 10,
+                    1 => 10 + qlen - 1,
+                    _ => 10 + r.below(qlen as u64) as usize,
+                };
+                let runt = format!("IIII{}", hx(&whole[..keep]));
+                let ans = a_records(r, 1);
+                udp.push(vec![runt, format!("IIII{}", hx(&msg_tail(0x8180, 1, 1, &q.question(false), &ans)))]);
             }
             9 => {
                 api = "rrset";
